@@ -16,6 +16,13 @@ Theorem C03_tables : key_in hopHeaders "Trailer" = true /\
 Proof. repeat split; reflexivity. Qed.
 Print Assumptions C03_tables.
 
+(* the stand-alone proxy serves with http.Serve and builds no http.Server of its own: there is no read, write or idle
+   deadline on the connections that carry a response (the agent's upload is the body of a POST), however long the
+   backend takes to produce it.  (The model has no time-outs on the response path; this is where that is checked.) *)
+Theorem C03_no_server_deadlines : serverMainHTTPCalls = ["http.Serve"] /\ serverHTTPServerFields = [].
+Proof. split; reflexivity. Qed.
+Print Assumptions C03_no_server_deadlines.
+
 (* For every backend response - any final status outside 1xx, any header fields,
    any number of interim 1xx responses before it, any trailers - the client
    receives the final status and, for every end-to-end field name, exactly the
